@@ -147,19 +147,25 @@ Section Acc.
     - split; auto. intros nm os. rewrite H2. split; [intros [[]|H]; auto|auto].
   Qed.
 
+  (* The sorted backend list depends only on the SET of names that were added. *)
+  Lemma sorted_backends_independent names1 names2 :
+    (forall x, In x names1 <-> In x names2) ->
+    sort_bks (add_all bo cpu h1 h2 m names1) = sort_bks (add_all bo cpu h1 h2 m names2).
+  Proof.
+    intros Hset.
+    destruct (add_all_spec names1) as [[ND1 _] M1]. destruct (add_all_spec names2) as [[ND2 _] M2].
+    apply sort_bks_unique; auto.
+    apply NoDup_Permutation.
+    - eapply NoDup_map_inv; eauto.
+    - eapply NoDup_map_inv; eauto.
+    - intros [nm os]. rewrite M1, M2, Hset. tauto.
+  Qed.
+
   (* The table (as backend names) depends only on the SET of names that were added. *)
   Lemma order_independent names1 names2 :
     (forall x, In x names1 <-> In x names2) ->
     maglev bo cpu h1 h2 m names1 = maglev bo cpu h1 h2 m names2.
   Proof.
-    intros Hset. unfold maglev.
-    destruct (add_all_spec names1) as [[ND1 _] M1]. destruct (add_all_spec names2) as [[ND2 _] M2].
-    assert (E : sort_bks (add_all bo cpu h1 h2 m names1) = sort_bks (add_all bo cpu h1 h2 m names2)).
-    { apply sort_bks_unique; auto.
-      apply NoDup_Permutation.
-      - eapply NoDup_map_inv; eauto.
-      - eapply NoDup_map_inv; eauto.
-      - intros [nm os]. rewrite M1, M2, Hset. tauto. }
-    now rewrite E.
+    intros Hset. unfold maglev. now rewrite (sorted_backends_independent names1 names2 Hset).
   Qed.
 End Acc.
